@@ -361,8 +361,88 @@ def gen_cases(tier, rng):
     for k in range(n_scaled):
         out.append({"consts": rng.below(len(SCALED)), "kind": rng.choice(kinds), "budget": rng.range(3000, 14000),
                     "seed": rng.u64()})
-    # most expensive first so that the pool balances
+    # the sequencer as wired into USBDevice (monitor-only cases, appended last so that the other seeds do not move)
+    for k in range({"quick": 6, "widen": 12}.get(tier, 24)):
+        out.append({"kind": "devwire", "consts": "real", "which": k % 6, "seed": rng.u64()})
     return out
+
+
+# ------------------------------------------------------------------------------------- the wiring in USBDevice
+DEVWIRE_IN = ["ulpi_dir", "ulpi_nxt", "ulpi_data_i", "full_speed_only", "low_speed_only"]
+DEVWIRE_OUT = ["reset_detected", "speed", "op_mode"]
+
+
+def devwire_monitor(stim, rows):
+    """C19 on the device's own ports: a device that is restricted to full or low speed in the cycle in which it
+    reports the bus reset does not start the high-speed handshake (speed stays FS/LS, no chirp operating mode)."""
+    fails = []
+    for t, (v, r) in enumerate(zip(stim, rows)):
+        fso, lso = v[3], v[4]
+        if r[0] and (fso or lso):
+            for u in range(t + 1, min(len(rows), t + 25)):
+                if rows[u][1] == 0 or rows[u][2] == 2:
+                    fails.append({"cycle": u, "sig": "devwire-restricted-never-chirps", "what":
+                                  "USBDevice reported the bus reset in cycle %d with full_speed_only=%d low_speed_only=%d "
+                                  "asserted, and %d cycles later speed=%d op_mode=%d (high speed / chirp): a restricted "
+                                  "device must not start the high-speed handshake"
+                                  % (t, fso, lso, u - t, rows[u][1], rows[u][2])})
+                    return fails
+    return fails
+
+
+def run_devwire(desc):
+    """USBDevice on a ULPI bus (the high-speed capable configuration); the PHY reports J, then SE0 by RxCmds."""
+    from amaranth.hdl.rec import Record
+    from amaranth.sim import Simulator
+    from luna.gateware.usb.usb2.device import USBDevice
+    from luna.gateware.usb.usb2.reset import USBResetSequencer
+    bus = Record([('data', [('i', 8), ('o', 8), ('oe', 1)]), ('nxt', [('i', 1)]), ('stp', [('o', 1)]), ('dir', [('i', 1)])])
+    dut = USBDevice(bus=bus, handle_clocking=False)
+    c5 = int(USBResetSequencer._CYCLES_5_MICROSECONDS)
+    if desc.get("stimulus"):
+        stim = [list(r) for r in desc["stimulus"]]
+    else:
+        rng = Rng(desc["seed"])
+        col = 3 + desc["which"] % 2
+        rxcmd = lambda v: [[1, 0, v, 0, 0], [1, 0, v, 0, 0], [0, 0, 0, 0, 0]]
+        # one bus reset per offset: the restriction is raised T = 5 us + off cycles into the SE0 and held to the end
+        # of that SE0; off walks upwards through the decision cycle, so every attempt up to the race cycle is a
+        # restricted reset (the device stays at full speed and the next attempt follows) and the first attempt that
+        # is too late starts the handshake (which ends the useful part of the run)
+        stim = [[0, 0, 0, 0, 0]] * 5
+        for off in range(-5, 7):
+            stim += rxcmd(0b00001101) + [[0, 0, 0, 0, 0]] * rng.range(4, 12) + rxcmd(0b00001100)
+            for k in range(c5 + 14):
+                row = [0, 0, 0, 0, 0]
+                if k >= c5 + off:
+                    row[col] = 1
+                stim.append(row)
+        stim += [[0, 0, 0, 0, 0]] * 30
+    ins = [bus.dir.i, bus.nxt.i, bus.data.i, dut.full_speed_only, dut.low_speed_only]
+    outs = [dut.reset_detected, dut.speed, dut.utmi.op_mode]
+    top = sim._Wrap(dut, ["usb"])
+    s = Simulator(top)
+    s.add_clock(1e-6, domain="usb")
+    rows = []
+
+    async def tb(ctx):
+        ctx.set(dut.connect, 1)
+        for v in stim:
+            for sig, x in zip(ins, v):
+                ctx.set(sig, x)
+            rows.append([int(ctx.get(o)) for o in outs])
+            await ctx.tick("usb")
+
+    s.add_testbench(tb)
+    s.run()
+    fails = devwire_monitor(stim, rows)
+    tags = {"devwire"}
+    for v, r in zip(stim, rows):
+        if r[0]:
+            tags.add("devwire-reset-%s" % ("restricted" if (v[3] or v[4]) else "unrestricted"))
+        if r[2] == 2:
+            tags.add("devwire-chirp")
+    return Case([0], stim, rows, fails, sorted(tags), desc, DEVWIRE_IN, DEVWIRE_OUT, lean=False)
 
 
 # ------------------------------------------------------------------------------------------------ simulation
@@ -642,6 +722,8 @@ def monitor(c, rows, per_row, real_consts):
 
 
 def run_case(desc):
+    if desc.get("kind") == "devwire":
+        return run_devwire(desc)
     from luna.gateware.usb.usb2.reset import USBResetSequencer
     dut = USBResetSequencer()
     real = {k: int(getattr(USBResetSequencer, ATTR[k])) for k in KEYS}
